@@ -1,0 +1,74 @@
+//go:build verif
+
+// Copyright 2026 The Scriggo Authors. All rights reserved.
+// Use of this source code is governed by a BSD-style
+// license that can be found in the LICENSE file.
+
+// Package c06 is a verification bridge (build tag "verif") that exposes, for
+// the external harness of property C06, the context the lexer assigns to
+// every show statement of a template source. It adds no behaviour.
+package c06
+
+import (
+	"github.com/open2b/scriggo/ast"
+	"github.com/open2b/scriggo/ast/astutil"
+	"github.com/open2b/scriggo/internal/compiler"
+)
+
+// Hole describes one show statement: its context, whether it is inside a URL
+// attribute (and which tag and attribute), and its source offsets.
+type Hole struct {
+	Context   string
+	InURL     bool
+	Tag       string
+	Attribute string
+	Start     int
+	End       int
+}
+
+type visitor struct {
+	holes []Hole
+	url   *ast.URL
+}
+
+func (v *visitor) Visit(n ast.Node) astutil.Visitor {
+	switch n := n.(type) {
+	case *ast.URL:
+		return &visitor2{v, n}
+	case *ast.Show:
+		v.add(n, nil)
+	}
+	return v
+}
+
+func (v *visitor) add(n *ast.Show, u *ast.URL) {
+	h := Hole{Context: n.Context.String(), Start: n.Pos().Start, End: n.Pos().End}
+	if u != nil {
+		h.InURL, h.Tag, h.Attribute = true, u.Tag, u.Attribute
+	}
+	v.holes = append(v.holes, h)
+}
+
+type visitor2 struct {
+	v *visitor
+	u *ast.URL
+}
+
+func (w *visitor2) Visit(n ast.Node) astutil.Visitor {
+	if s, ok := n.(*ast.Show); ok {
+		w.v.add(s, w.u)
+	}
+	return w
+}
+
+// Holes parses src with the real lexer and parser and returns the show
+// statements in source order.
+func Holes(src []byte, format ast.Format) ([]Hole, error) {
+	tree, err := compiler.VerifC06ParseTemplateSource(src, format)
+	if err != nil {
+		return nil, err
+	}
+	v := &visitor{}
+	astutil.Walk(v, tree)
+	return v.holes, nil
+}
